@@ -10,6 +10,7 @@ import (
 	"sort"
 	"strings"
 	"sync"
+	"sync/atomic"
 	"time"
 
 	"github.com/my-cloud/ruthenium/validatornode/application"
@@ -376,7 +377,27 @@ type Node struct {
 
 	blocksCtlOnce sync.Once
 	blocksCtl     *history.BlocksController
+
+	// BeforeAddBlock, when set, runs once inside the pool's next call of Blockchain.AddBlock, before the real call
+	// (the place where a sync round may commit between block production's reads and its append)
+	BeforeAddBlock atomic.Pointer[func()]
 }
+
+// hookedBlocks is the BlocksManager the pool is given: the node's blockchain, plus the optional one-shot hook
+type hookedBlocks struct {
+	n *Node
+}
+
+func (h *hookedBlocks) AddBlock(ts int64, txs []*ledger.Transaction, a []string) error {
+	if f := h.n.BeforeAddBlock.Swap(nil); f != nil {
+		(*f)()
+	}
+	return h.n.Chain.AddBlock(ts, txs, a)
+}
+func (h *hookedBlocks) Blocks(x uint64) []*ledger.Block              { return h.n.Chain.Blocks(x) }
+func (h *hookedBlocks) FirstBlockTimestamp() int64                   { return h.n.Chain.FirstBlockTimestamp() }
+func (h *hookedBlocks) LastBlockTimestamp() int64                    { return h.n.Chain.LastBlockTimestamp() }
+func (h *hookedBlocks) LastBlockTransactions() []*ledger.Transaction { return h.n.Chain.LastBlockTransactions() }
 
 // New wires the real components exactly as validatornode/main.go does.
 func New(name string, settings *Settings, validatorAddress string) *Node {
@@ -387,7 +408,7 @@ func New(name string, settings *Settings, validatorAddress string) *Node {
 	n.Reg = verification.NewAddressesRegistry(n.Humans, n.Log)
 	n.Utxos = verification.NewUtxosRegistry(settings)
 	n.Chain = verification.NewBlockchain(n.Reg, settings, n.Senders, n.Utxos, n.Log)
-	n.Pool = validation.NewTransactionsPool(n.Chain, settings, n.Senders, n.Utxos, validatorAddress, n.Log)
+	n.Pool = validation.NewTransactionsPool(&hookedBlocks{n}, settings, n.Senders, n.Utxos, validatorAddress, n.Log)
 	return n
 }
 
